@@ -18,18 +18,44 @@ namespace pika {
 #define NSLOT 3
 
 static int live_payloads, ctor_total, dtor_total;
+// identity ledger: every wrapped object carries a serial number (it survives the memcpy relocation of inline targets); a destructor
+// must find its serial alive.  A counter alone is fooled when a destructor runs on raw storage AND another object leaks (seed C18-copyassign).
+#define MAX_SERIAL 24
+static int next_serial;
+static unsigned char alive[MAX_SERIAL];
+static int new_serial()
+{
+    verif_assert(next_serial + 1 < MAX_SERIAL, "encoding bound: more wrapped objects constructed than the ledger holds");
+    verif_assume(next_serial + 1 < MAX_SERIAL);
+    alive[++next_serial] = 1;
+    ++live_payloads;
+    ++ctor_total;
+    return next_serial;
+}
 
 template <int Pad>
 struct payload
 {
     int id;
     mutable int calls = 0;
+    int serial;
     char pad[Pad];    // never read
-    explicit payload(int i) noexcept : id(i) { ++live_payloads; ++ctor_total; }
-    payload(payload const& o) noexcept : id(o.id), calls(o.calls) { ++live_payloads; ++ctor_total; }
-    payload(payload&& o) noexcept : id(o.id), calls(o.calls) { ++live_payloads; ++ctor_total; }
-    ~payload() { --live_payloads; ++dtor_total; verif_assert(live_payloads >= 0, "no wrapped object is destroyed twice"); }
-    int operator()(int x) const { return id * 100 + (++calls) * 10 + x; }
+    explicit payload(int i) noexcept : id(i), serial(new_serial()) {}
+    payload(payload const& o) noexcept : id(o.id), calls(o.calls), serial(new_serial()) {}
+    payload(payload&& o) noexcept : id(o.id), calls(o.calls), serial(new_serial()) {}
+    ~payload()
+    {
+        bool ok = serial > 0 && serial < MAX_SERIAL && alive[serial % MAX_SERIAL];
+        verif_assert(ok, "a destructor runs only on a live wrapped object (never twice, never on raw storage)");
+        if (ok) alive[serial] = 0;
+        --live_payloads;
+        ++dtor_total;
+    }
+    int operator()(int x) const
+    {
+        verif_assert(serial > 0 && serial < MAX_SERIAL && alive[serial % MAX_SERIAL], "only a live wrapped object is invoked");
+        return id * 100 + (++calls) * 10 + x;
+    }
 };
 using small_t = payload<4>;      // fits the 3-pointer inline buffer
 using large_t = payload<40>;     // larger than the inline buffer -> heap
@@ -54,7 +80,9 @@ static void check_all()
             verif_assert(static_cast<bool>(*slot[i]) == (m_id[i] != 0), "operator bool is the negation of empty()");
             if (m_id[i] > 0) ++nonempty;
         }
-    verif_assert(live_payloads == nonempty, "every contained object is alive exactly while a wrapper holds it (constructed - destroyed == wrappers holding one)");
+    int alive_now = 0;
+    for (int k = 1; k < MAX_SERIAL; ++k) alive_now += alive[k];
+    verif_assert(alive_now == nonempty, "every contained object is alive exactly while a wrapper holds it (live identities == wrappers holding one)");
 }
 
 extern "C" void fn_main()
